@@ -4,7 +4,10 @@ m = json.load(open('/verif/MANIFEST.json'))
 jsonschema.validate(m, json.load(open('/root/.vp/MANIFEST.schema.json')))
 es = json.load(open('/root/.vp/EVIDENCE.schema.json'))
 for f in sorted(glob.glob('/verif/evidence/*.json')):
-    jsonschema.validate(json.load(open(f)), es)
-    print("ok", f)
+    try:
+        jsonschema.validate(json.load(open(f)), es)
+        print("ok", f)
+    except Exception as e:
+        print("INVALID", f, str(e).split("\n")[0])
 ids = {c["property_id"] for c in m["checks"]} | {n["property_id"] for n in m.get("not_applicable", [])}
 print("manifest ok; covered ids:", len(ids))
